@@ -120,6 +120,26 @@ def report_multi(prop, per_harness, agg, tier, seed, t0, bounds, functions, assu
         R.write_replay = orig
 
 
+@register("C11")
+def c11(tier, seed, t0):
+    from harness import literals as H
+    N = int(os.environ.get("VERIF_N", 0)) or (7 if tier == "quick" else 9)
+    budget = 150 if tier == "quick" else 2400
+    res = R.run_pool(H.HNAME, H.chunks(tier, N), budget, seed, tier, extra=dict(sample_rate=0.1 if tier == "quick" else 0.03))
+    agg = R.merge(res)
+    bounds = dict(literal_chars=N, numeric_alphabet=H.NUM_ALPHA, quoted_alphabet=H.QUO_ALPHA,
+                  delimiters=dict(numeric=H.NUM_DELIMS, quoted=H.QUO_DELIMS), start_position="(1,1) (positions are C09's subject)",
+                  outside="literals longer than the bound; hex escapes with more than 2 digits; octal escapes with more than 3; "
+                          "multi-character constants; trigraph/digraph/splice/tab inside literals (C10/C12); non-ASCII")
+    return R.report("C11", H.HNAME, tier, seed, agg, t0, bounds,
+                    functions=["Lexer.parse_integer_literal", "Lexer.parse_float_literal", "Lexer.parse_char_literal",
+                               "Lexer.parse_string_literal", "Lexer.parse_multi_line_comment", "Lexer.pop", "Lexer.peek",
+                               "INT_LITERAL_PATTERN", "FLOAT_EXPONENT_LITERAL_PATTERN", "FLOAT_FRACTIONAL_LITERAL_PATTERN",
+                               "FLOAT_HEXADECIMAL_LITERAL_PATTERN", "integer_suffixes", "float_suffixes"],
+                    assumptions=["reference recogniser oracle/c_literals.py (C11 6.4.4/6.4.5 + documented extensions)",
+                                 "families V-int V-float V-char V-str and M1..M15 as in DESIGN.md 4.11; strings outside every family are skipped (counted)"])
+
+
 PIPE_FUNCS = ["norminette.lexer.lexer.Lexer.* (whole tokenizer)", "norminette.context.Context.*", "norminette.registry.Registry.run",
               "Registry.run_rules", "every norminette.rules.is_*.Is*.run and check_*.Check*.run reached by the inputs",
               "norminette.errors.Errors.add / Error.from_name", "norminette.scope.*"]
@@ -213,18 +233,21 @@ def c08(tier, seed, t0):
     from harness import errors_order as H
     res = R.run_pool(H.HNAME, H.chunks(tier), 150 if tier == "quick" else 1800, seed, tier,
                      extra=dict(sample_rate=0.05 if tier == "quick" else 0.02), shuffle=False)
-    agg = R.merge(res)
-    bounds = dict(laws="3 diagnostics x 1..2 highlights each (quick: at most one diagnostic with 2); line/column unbounded integers >= 1; 3 names, 2 levels, 3 hint lengths",
+    agg1 = R.merge(res)
+    agg2, HE = edits("C08", tier, seed, 80 if tier == "quick" else 1500)
+    agg = merge2(agg1, agg2)
+    bounds = dict(wellformed_on_real_runs=EDIT_BOUNDS,
+                  laws="3 diagnostics x 1..2 highlights each (quick: at most one diagnostic with 2); line/column unbounded integers >= 1; 3 names, 2 levels, 3 hint lengths",
                   order="2..3 (quick, <=4 highlights in total) / 2..4 (thorough) diagnostics x 1..2 highlights, every insertion order (positions symbolic)",
                   formats="every witness is pushed through both real formatters natively, with and without colours",
                   precondition="highlights[0] is the smallest highlight of a diagnostic (true of every producer in the code base)",
                   outside="diagnostics without highlight (excluded by the property: 'a position inside the file'); catalogue/position "
                           "well-formedness on real runs is monitored by the C01/C09/C11 explorations")
-    return R.report("C08", H.HNAME, tier, seed, agg, t0, bounds,
-                    functions=["norminette.errors.Highlight.__lt__", "Error.__lt__", "Errors.__iter__ (list.sort with the real comparator)",
+    return report_multi("C08", {H.HNAME: agg1, HE.HNAME: agg2}, agg, tier, seed, t0, bounds,
+                    ["every pipeline function reached by the edited programs (catalogue / level / position monitor)", "norminette.errors.Highlight.__lt__", "Error.__lt__", "Errors.__iter__ (list.sort with the real comparator)",
                                "Errors.add", "Errors.status", "Error.from_name", "HumanizedErrorsFormatter.__str__ (native, on witnesses)",
                                "JSONErrorsFormatter.__str__ (native, on witnesses)"],
-                    assumptions=["json.dumps / dataclasses.asdict run natively on the concretised witness of each path class (C-level code)"])
+                    ["json.dumps / dataclasses.asdict run natively on the concretised witness of each path class (C-level code)"])
 
 
 @register("C03")
